@@ -96,6 +96,7 @@ def plan(tier, seed):
     for y in (2021, 2022, 2023):
         for g in ([scen.FAMILIES[0:3], scen.FAMILIES[3:6], scen.FAMILIES[6:9], scen.FAMILIES[9:12]] if tier == 'quick' else [[f] for f in scen.FAMILIES]):
             sp.append({'year': y, 'families': g, 'n': n})
+        sp.append({'kind': 'directed', 'year': y, 'n': 2 if tier == 'quick' else 40})
     return sp
 
 
@@ -195,12 +196,93 @@ def check_solution(res, year, sol, label, rp, base_keys=None):
                     res.violation(f'C02|{year}|{form}.{line}|transcribed', f'{label}: {key} = {got} but the instruction gives {float(exp):.2f} (transcribed: {cite})', rp)
 
 
+def directed_ira(res, year, p, sol, label, rp):
+    """Form 1040 lines 4a/4b (transcribed, with scenario knowledge): when every
+    IRA distribution falls under exception 2 (Form 8606), each person's taxable
+    amount comes from that person's own Form 8606 and line 4b is their sum; line
+    4a is the sum of the IRA distributions (Form 1040 instructions, lines 4a and 4b)."""
+    if getattr(p, 'ira_mode', None) != '8606' or '1040.4b' not in sol:
+        return
+    owners = {}
+    for d in p.f1099r:
+        if d['ira'] and d['box_1'] > 0:
+            who = 'spouse' if d['belongs_to'] == 'spouse' else 'you'
+            owners[who] = owners.get(who, 0.0) + d['box_1']
+    if not owners:
+        return
+    res.evaluations += 1
+    res.count('rule_instances_transcribed')
+    res.distinct.add(f'{year}|1040.4b|transcribed-directed')
+    missing = [w for w in owners if f'8606:{w}.taxable_amount' not in sol]
+    if missing:
+        res.violation(f'C02|{year}|1040.4b|transcribed-directed', f'{label}: {missing} received IRA distributions under exception 2 but no Form 8606 of their own is in the solution '
+                      f'(forms present: {sorted(k.split(".")[0] for k in sol if k.startswith("8606"))[:2]})', rp)
+        return
+    exp = sum(sol[f'8606:{w}.taxable_amount'] for w in owners)
+    if abs(sol['1040.4b'] - exp) > 0.011:
+        res.violation(f'C02|{year}|1040.4b|transcribed-directed', f'{label}: 1040.4b = {sol["1040.4b"]} but the Forms 8606 of {sorted(owners)} give taxable amounts adding to {exp:.2f}', rp)
+    if '1040.4a' in sol and abs(sol['1040.4a'] - sum(owners.values())) > 0.011:
+        res.violation(f'C02|{year}|1040.4a|transcribed-directed', f'{label}: 1040.4a = {sol["1040.4a"]} but IRA distributions add to {sum(owners.values()):.2f}', rp)
+
+
+def directed_personas(year, seed, n):
+    """Scenarios aimed at rules that random personas rarely exercise."""
+    from hv import scen
+    from hv.common import rng_for
+    out = []
+    for k in range(n):
+        r = rng_for('C02dir', seed, year, k)
+        # both spouses with IRA distributions figured on their own Form 8606
+        p = scen.plain_persona(year, 'MFJ', [round(r.uniform(40000, 90000), 2), round(r.uniform(30000, 60000), 2)], key=f'dir8606:{seed}:{k}', deps_odc=r.choice([0, 1]))
+        p.n_1099r = 2
+        p.f1099r = [{'box_1': round(r.uniform(2000, 9000), 2), 'box_2a': 0.0, 'box_4': round(r.choice([0, 120.0]), 2), 'ira': True, 'belongs_to': who, 'box_14_1': 0.0}
+                    for who in ('taxpayer', 'spouse')]
+        for d in p.f1099r:
+            d['box_2a'] = d['box_1']
+        p.ira_mode = '8606'
+        out.append(('F5d', p))
+        # both spouses with an HSA
+        p = scen.plain_persona(year, 'MFJ', [round(r.uniform(50000, 90000), 2), round(r.uniform(30000, 60000), 2)], key=f'dirhsa:{seed}:{k}',
+                               hsa_you=True, hsa_spouse=True, hsa_family=False, s1_adjust=True)
+        out.append(('F4d', p))
+        # itemizer with medical expenses above the floor and capped state taxes
+        st = r.choice(['S', 'MFJ', 'MFS', 'HOH'])
+        p = scen.plain_persona(year, st, round(r.uniform(60000, 140000), 2), key=f'diritem:{seed}:{k}', deps_odc=1 if st == 'HOH' else 0, itemize=True, n_1098=1,
+                               f1098=[{'box_1': round(r.uniform(6000, 15000), 2), 'box_6': round(r.choice([0, 800.0]), 2), 'box_4': 0.0, 'box_5': 0.0}])
+        p.sa.update({'medical_dental_expenses': round(r.uniform(12000, 30000), 2), 'state_local_real_estate_taxes': round(r.uniform(3000, 14000), 2),
+                     'charitable_cash_check': round(r.uniform(0, 5000), 2), 'charitable_other_than_cash_check': round(r.uniform(0, 400), 2), 'other_itemized': round(r.choice([0, 150.0]), 2)})
+        out.append(('F3d', p))
+        # high earner: Form 8959, phase-out of the child credit
+        p = scen.plain_persona(year, r.choice(['S', 'MFJ', 'HOH']), round(r.uniform(205000, 290000), 2), key=f'dirhigh:{seed}:{k}', deps_ctc=r.choice([0, 1, 2]), deps_odc=1)
+        p.other_wh = round(r.choice([0, 250.0]), 2)
+        out.append(('F6d', p))
+        # NC return with additions, deductions, a child deduction and use tax
+        st = r.choice(['S', 'MFJ', 'HOH', 'MFS'])
+        p = scen.plain_persona(year, st, round(r.uniform(30000, 120000), 2), key=f'dirnc:{seed}:{k}', deps_ctc=r.choice([1, 2]), nc=True, n_1098=1,
+                               f1098=[{'box_1': round(r.uniform(2000, 9000), 2), 'box_6': 0.0, 'box_4': 0.0, 'box_5': 0.0}])
+        p.ncv.update({'additions_to_agi': True, 'deductions_from_agi': True, 'try_itemizing': r.random() < 0.5, 'no_consumer_use_tax': False, 'full_records': r.random() < 0.5,
+                      'estimated_tax': round(r.choice([0, 500.0]), 2)})
+        p.sa['state_local_real_estate_taxes'] = round(r.uniform(0, 9000), 2)
+        out.append(('F8d', p))
+        # qualified dividends, capital gain distributions and section 199A dividends
+        st = r.choice(['S', 'MFJ', 'HOH', 'MFS', 'QSS'])
+        p = scen.plain_persona(year, st, round(r.uniform(30000, 160000), 2), key=f'dirdiv:{seed}:{k}', deps_odc=1 if st in ('HOH', 'QSS') else 0, n_div=2,
+                               divs=[{'box_1a': round(r.uniform(500, 9000), 2), 'box_1b': round(r.uniform(100, 500), 2), 'box_2a': round(r.uniform(0, 4000), 2), 'box_4': 0.0,
+                                      'box_5': round(r.uniform(10, 400), 2), 'box_7': round(r.choice([0, 40.0]), 2), 'box_16_1': 0.0} for _ in range(2)])
+        out.append(('F2d', p))
+    return out
+
+
 def run_shard(spec, tier, seed):
     from hv import scen, realwork, drive
     res = Result()
     year = spec['year']
-    for fam in spec['families']:
-        for p in scen.personas(seed, year, fam, spec['n']):
+    if spec.get('kind') == 'directed':
+        cases = directed_personas(year, seed, spec['n'])
+    else:
+        cases = [(fam, p) for fam in spec['families'] for p in scen.personas(seed, year, fam, spec['n'])]
+    for fam, p in cases:
+        if True:
             out, tv, t = realwork.traced(p)
             res.count('solves')
             if out.exc is not None and not tv.stored:
@@ -231,6 +313,7 @@ def run_shard(spec, tier, seed):
                     check_solution(res, year, sol2, f'{year} {fam} {p.key} [all lines]', realwork.replay_of(p, 'all-lines', spec), base_keys=set(sol))
             except Exception as e:  # harness-side problem: count, never a verdict
                 res.count('full_evaluation_failed')
+            directed_ira(res, year, p, sol, f'{year} {fam} {p.key}', realwork.replay_of(p, 'base', spec))
             if len(res.samples) < 1:
                 res.sample({'persona': p.describe(), 'lines_in_solution': len(sol), 'rule_instances_so_far': res.evaluations})
     return res
